@@ -744,13 +744,15 @@ class Pervaporation:
         if initial_permeances is None:
             first_component_permeance = Permeance(
                 value=pervaporation_function_first(
-                    initial_feed_composition.first, feed_temperature
+                    initial_feed_composition.to_weight(self.mixture).first,
+                    feed_temperature,
                 )
             )
 
             second_component_permeance = Permeance(
                 value=pervaporation_function_second(
-                    initial_feed_composition.first, feed_temperature
+                    initial_feed_composition.to_weight(self.mixture).first,
+                    feed_temperature,
                 )
             )
 
@@ -768,13 +770,15 @@ class Pervaporation:
         facilitation_rate_first = (
             first_component_permeance.value
             / pervaporation_function_first(
-                x=initial_feed_composition.first, t=feed_temperature
+                x=initial_feed_composition.to_weight(self.mixture).first,
+                t=feed_temperature,
             )
         )
         facilitation_rate_second = (
             second_component_permeance.value
             / pervaporation_function_second(
-                x=initial_feed_composition.first, t=feed_temperature
+                x=initial_feed_composition.to_weight(self.mixture).first,
+                t=feed_temperature,
             )
         )
 
@@ -1014,14 +1018,14 @@ class Pervaporation:
         facilitation_rate_first = (
             first_component_permeance.value
             / pervaporation_function_first(
-                x=conditions.initial_feed_composition.first,
+                x=feed_composition[0].first,
                 t=conditions.initial_feed_temperature,
             )
         )
         facilitation_rate_second = (
             second_component_permeance.value
             / pervaporation_function_second(
-                x=conditions.initial_feed_composition.first,
+                x=feed_composition[0].first,
                 t=conditions.initial_feed_temperature,
             )
         )
@@ -1328,14 +1332,14 @@ class Pervaporation:
         facilitation_rate_first = (
             first_component_permeance.value
             / pervaporation_function_first(
-                x=conditions.initial_feed_composition.first,
+                x=feed_composition[0].first,
                 t=conditions.initial_feed_temperature,
             )
         )
         facilitation_rate_second = (
             second_component_permeance.value
             / pervaporation_function_second(
-                x=conditions.initial_feed_composition.first,
+                x=feed_composition[0].first,
                 t=conditions.initial_feed_temperature,
             )
         )
